@@ -15,6 +15,8 @@ package server
 // decryptClientInfo: accepted only if the 64 sealed bytes open under the shared secret with the first 12
 // bytes of the ephemeral key as nonce, and the embedded timestamp is STRICTLY inside the +-180 s window.
 //@ func decryptClientInfo
+//@   # C06: the proxy method is read from the whole 12-byte field at offset 16 (zero padding trimmed)
+//@   atcall Trim requires wholeMethodField: sameSlice(arg0.([]byte), plaintext[16:28])
 //@   ensures authenticated: err == nil ==> authValid(fragments)
 //@   ensures forgedRejected: !authValid(fragments) ==> err != nil
 //@   ensures windowStrict: err == nil ==> nanos(serverTime) - 180000000000 < tsSigned(authTs(fragments)) * 1000000000 && tsSigned(authTs(fragments)) * 1000000000 < nanos(serverTime) + 180000000000
@@ -75,6 +77,13 @@ package server
 // ---------------------------------------------------------------------------------------------
 //@ func parseKeyShare
 //@   ensures keyLen: err == nil ==> len(ret) == 32
+//@   # (slicing is bounded by the capacity of the extension slice, which Go allows: the body may extend past its length)
+//@   # C06: the share returned is the body of an x25519 entry (group 0x001d, length 32) of the input, and
+//@   # every entry before it is skipped by its full 16-bit length (other groups, e.g. a 1216-byte
+//@   # post-quantum share, may come first)
+//@   ensures isX25519Entry: err == nil ==> arrayOf(ret) == arrayOf(input) && offsetIn(ret, input) >= 6 && offsetIn(ret, input) + 32 <= cap(input) && input[offsetIn(ret, input)-4] == 0 && input[offsetIn(ret, input)-3] == 29 && input[offsetIn(ret, input)-2] == 0 && input[offsetIn(ret, input)-1] == 32
+//@   loop 0 step wholeEntrySkipped: pointer == old(pointer) + 4 + int(input[old(pointer)+2])*256 + int(input[old(pointer)+3])
+//@   loop 0 invariant inBounds: pointer >= 2
 
 // readFirstPacket / connReadLine: exactly the bytes consumed from the peer are in the buffer (so that
 // goWeb can replay them), nothing is written to the peer, a connection that is to be redirected is left
@@ -140,6 +149,9 @@ package server
 //@   # C07: a handshake reply is produced only for an authenticated first packet that passes the admin
 //@   # gate, or names a served proxy method and a UID the user panel accepts
 //@   atcall Responder requires authorised: succeeded("AuthFirstPacket") && (adminGate(sta, ci) || (mapHas(sta.ProxyBook, ci.ProxyMethod) && (succeeded("(*userPanel).GetUser") || succeeded("(*userPanel).GetBypassUser"))))
+//@   # C06/C15: a connection is handed the key of exactly the session it is attached to (the admin path
+//@   # uses the freshly drawn key of its own one-connection session)
+//@   atcall Responder requires keyOfItsSession: (!called("(*ActiveUser).GetSession") && arg1 == sessionKey) || (called("(*ActiveUser).GetSession") && lastretOf[*mux.Session]("(*ActiveUser).GetSession") != nil && arg1 == fieldOf(lastretOf[*mux.Session]("(*ActiveUser).GetSession"), "sessionKey"))
 //@   # C09: unless such a reply was produced, the server itself has written nothing to the peer
 //@   # (stated per way of leaving the function - the solvers do not combine the cases on their own -
 //@   # together with the clause that the cases are exhaustive)
@@ -367,6 +379,8 @@ package server
 //@   ensures size: len(ret0) == 122
 //@   ensures handshakeHeader: ret0[0] == 2 && ret0[1] == 0 && ret0[2] == 0 && ret0[3] == 118 && ret0[4] == 3 && ret0[5] == 3
 //@   ensures echoesSessionId: ret0[38] == 32 && (forall i int :: 0 <= i && i < 32 ==> ret0[39+i] == sessionId[i])
+//@   # (C06: that nonce and sealed key sit at offsets 6..37 and 84..111, where the client reads them, is
+//@   # not claimed: the invariant over the eleven pieces with those contents was not discharged)
 //@   loop 0 invariant size: (rangeindex == -1 ==> len(ret) == 0) && (rangeindex == 0 ==> len(ret) == 1) && (rangeindex == 1 ==> len(ret) == 4) && (rangeindex == 2 ==> len(ret) == 6) && (rangeindex == 3 ==> len(ret) == 38) && (rangeindex == 4 ==> len(ret) == 39) && (rangeindex == 5 ==> len(ret) == 71) && (rangeindex == 6 ==> len(ret) == 73) && (rangeindex == 7 ==> len(ret) == 74) && (rangeindex == 8 ==> len(ret) == 76) && (rangeindex == 9 ==> len(ret) == 116) && (rangeindex == 10 ==> len(ret) == 122) && rangeindex <= 10
 //@   loop 0 invariant own: ret == nil || (fresh(ret) && (forall k int :: 0 <= k && k < 11 ==> arrayOf(ret) != arrayOf(serverHello[k])) && arrayOf(ret) != arrayOf(sessionId))
 //@   loop 0 invariant pieces: len(serverHello[0]) == 1 && serverHello[0][0] == 2 && len(serverHello[1]) == 3 && serverHello[1][0] == 0 && serverHello[1][1] == 0 && serverHello[1][2] == 118 && len(serverHello[2]) == 2 && serverHello[2][0] == 3 && serverHello[2][1] == 3 && len(serverHello[4]) == 1 && serverHello[4][0] == 32 && sameSlice(serverHello[5], sessionId)
@@ -386,3 +400,25 @@ package server
 //@   requires originalConn != nil && len(clientHelloSessionId) == 32
 //@   atcall composeReply requires certNotEmpty: len(cert) >= 27 && len(cert) <= 68
 //@   flag noframe
+
+// ---------------------------------------------------------------------------------------------
+// C06: agreement of the two ends of the handshake. sealedBy(...) is, term for term, the postcondition
+// that package client proves for makeAuthenticationPayload (client:makeAuthenticationPayload#post.*,
+// with randPubKey / ciphertextWithTag / sharedSecret carried over by the transport and X25519).
+// Given it and a client clock strictly inside the window, decryptClientInfo accepts and returns exactly
+// the client's UID, encryption method, session id and ordered/unordered flag.
+// ---------------------------------------------------------------------------------------------
+//@ import "time"
+//@ ghost func sealedBy(fr authFragments, uid []byte, enc byte, sid uint32, unordered bool, ts int) bool {
+//@     return authValid(fr) && len(uid) == 16 && (forall k int :: 0 <= k && k < 16 ==> authPlain(fr, k) == uid[k]) && authPlain(fr, 28) == enc && int(authPlain(fr, 37))*16777216 + int(authPlain(fr, 38))*65536 + int(authPlain(fr, 39))*256 + int(authPlain(fr, 40)) == int(sid) && ((authPlain(fr, 41) % 2 == 1) == unordered) && tsSigned(authTs(fr)) == ts
+//@ }
+//@ ghost func inWindow(ts int, now time.Time) bool { return nanos(now) - 180000000000 < ts * 1000000000 && ts * 1000000000 < nanos(now) + 180000000000 }
+//@ ghost func recovered(info ClientInfo, uid []byte, enc byte, sid uint32, unordered bool) bool {
+//@     return len(info.UID) == 16 && (forall k int :: 0 <= k && k < 16 ==> info.UID[k] == uid[k]) && info.EncryptionMethod == enc && info.SessionId == sid && info.Unordered == unordered
+//@ }
+//@ lemma func handshakeAgreement(fr authFragments, uid []byte, enc byte, sid uint32, unordered bool, ts int, now time.Time) {
+//@     assume(sealedBy(fr, uid, enc, sid, unordered, ts) && inWindow(ts, now))
+//@     info, err := decryptClientInfo(fr, now)
+//@     assert(err == nil)
+//@     assert(recovered(info, uid, enc, sid, unordered))
+//@ }
